@@ -8,6 +8,7 @@ Float legs are stated as "the host operation applied to the operand" (opaque to 
 -/
 import Verif.Model.Value
 import Verif.Lemmas.ValueLemmas
+import Verif.Lemmas.FloatCmpLemmas
 namespace Verif
 
 /-! ## 1. identity and Null -/
@@ -215,17 +216,53 @@ theorem C07_long_str_long (x : Int64) : roundTrip (.long x) .string .long = .ok 
   show (convertUnsafe (.str (showInt x.toInt)) .long) = _
   simp [convertUnsafe, V.typ, parseDecInt_showInt_toInt]
 
-/-- the float legs: the result is the host operation applied to the operand (Lean's kernel
-cannot evaluate them, so "1.0 ≠ 0" and "float32(float64(f)) = f" are NOT proved here) -/
+/-- the float legs: the result is the host operation applied to the operand.  `!= 0` is the
+bit-level IEEE test `fNonZero` / `fNonZero32` on `toBits`; the bit pattern of the host constants
+`1` / `0` (and `toBits ∘ ofBits`) is opaque to the kernel, so "1.0 ≠ 0" and
+"float32(float64(f)) = f" are NOT proved here -/
 theorem C07_float_legs_host (b : Bool) (f : Float32) (x : Int64) :
-    roundTrip (.bool b) .float .boolean = .ok (.bool ((if b then (1 : Float32) else 0) != 0)) ∧
-    roundTrip (.bool b) .double .boolean = .ok (.bool ((if b then (1 : Float) else 0) != 0)) ∧
+    roundTrip (.bool b) .float .boolean = .ok (.bool (fNonZero32 (if b then (1 : Float32) else 0))) ∧
+    roundTrip (.bool b) .double .boolean = .ok (.bool (fNonZero (if b then (1 : Float) else 0))) ∧
     roundTrip (.float f) .double .float = .ok (.float f.toFloat.toFloat32) ∧
     roundTrip (.int x) .float .integer = .ok (.int (f64ToI64 (i64ToF32 x).toFloat)) ∧
     roundTrip (.int x) .double .integer = .ok (.int (f64ToI64 (i64ToF64 x))) ∧
     roundTrip (.long x) .float .long = .ok (.long (f64ToI64 (i64ToF32 x).toFloat)) ∧
     roundTrip (.long x) .double .long = .ok (.long (f64ToI64 (i64ToF64 x))) :=
   ⟨rfl, rfl, rfl, rfl, rfl, rfl, rfl⟩
+
+/-- Float → Integer / Long: NaN and everything outside `[-2^63, 2^63)` (the infinities included)
+gives Go's "integer indefinite" value `MinInt64`; the test is the bit-level IEEE comparison -/
+theorem C07_f64ToI64_out_of_range (x : Float)
+    (h : fIsNaN x = true ∨ f64Le 0x43e0000000000000 x.toBits = true ∨
+      f64Lt x.toBits 0xc3e0000000000000 = true) : f64ToI64 x = minI64 := by
+  unfold f64ToI64
+  rcases h with h | h | h <;> simp [h]
+
+theorem C07_f64ToI64_in_range (x : Float)
+    (h1 : fIsNaN x = false) (h2 : f64Le 0x43e0000000000000 x.toBits = false)
+    (h3 : f64Lt x.toBits 0xc3e0000000000000 = false) : f64ToI64 x = x.toInt64 := by
+  simp [f64ToI64, h1, h2, h3]
+
+/-- Float / Double → Boolean is "not equal to zero" on the bit pattern: both zeros are false,
+NaN is true -/
+theorem C07_float_to_boolean (f : Float32) (d : Float) :
+    convertUnsafe (.float f) .boolean = .ok (.bool (!f32Eq f.toBits 0)) ∧
+    convertUnsafe (.double d) .boolean = .ok (.bool (!f64Eq d.toBits 0)) ∧
+    (fIsNaN32 f = true → convertUnsafe (.float f) .boolean = .ok (.bool true)) ∧
+    (fIsNaN d = true → convertUnsafe (.double d) .boolean = .ok (.bool true)) := by
+  refine ⟨rfl, rfl, fun h => ?_, fun h => ?_⟩
+  · show R.ok (.bool (!f32Eq f.toBits 0)) = _
+    rw [(f32NaN_unordered f.toBits 0 h).2.2.1]; rfl
+  · show R.ok (.bool (!f64Eq d.toBits 0)) = _
+    rw [(f64NaN_unordered d.toBits 0 h).2.2.1]; rfl
+
+example : (!f64Eq 0x8000000000000000 0) = false := by decide   -- -0.0 → false
+example : (!f64Eq 0x3ff0000000000000 0) = true := by decide    -- 1.0 → true
+example : (!f32Eq 0x80000000 0) = false := by decide
+example : (!f32Eq 0x00000001 0) = true := by decide            -- smallest subnormal → true
+example : f64Le 0x43e0000000000000 0x7ff0000000000000 = true := by decide   -- +∞ is out of range
+example : f64Lt 0xfff0000000000000 0xc3e0000000000000 = true := by decide   -- -∞ is out of range
+example : f64Lt 0xc3e0000000000000 0xc3e0000000000000 = false := by decide  -- -2^63 is in range
 
 /-! ## 5. non-vacuity -/
 
